@@ -42,7 +42,7 @@ Proof. reflexivity. Qed.
 
 Lemma convert_number_carrier g d : num_carrier g d -> convert_number g = VDec d.
 Proof.
-  intros H; destruct H; unfold convert_number, convert_number_check;
+  intros H; destruct H; unfold convert_number, convert_number_check, convert_number_check_base;
     fold (norm_rv (VInt k nm z)) || fold (norm_rv (VFloat w nm (FFin d))) || fold (norm_rv (VDec d))
     || fold (norm_rv (VPtr (Some (VInt k nm z)))) || fold (norm_rv (VPtr (Some (VFloat w nm (FFin d)))));
     rewrite ?norm_rv_ptr, ?norm_rv_nonptr by exact I; reflexivity.
@@ -55,14 +55,14 @@ Qed.
 
 (** booleans, and strings that are not numerals, are returned unchanged *)
 Lemma convert_bool nm b : convert_number (VBool nm b) = VBool nm b /\ convert_unless_string (VBool nm b) = VBool nm b.
-Proof. split; unfold convert_unless_string, convert_number, convert_number_check; cbn; destruct b; reflexivity. Qed.
+Proof. split; unfold convert_unless_string, convert_number, convert_number_check, convert_number_check_base; cbn; destruct b; reflexivity. Qed.
 
 Lemma convert_string nm s : dec_of_string s = None ->
   convert_number (VStr nm s) = VStr nm s /\ convert_unless_string (VStr nm s) = VStr nm s.
 Proof.
   intros H.
   assert (Hc : convert_number (VStr nm s) = VStr nm s).
-  { unfold convert_number, convert_number_check.
+  { unfold convert_number, convert_number_check, convert_number_check_base.
     assert (Hv : (if is_empty_value (value_of (VStr nm s)) then value_of (VStr nm s) else deref1 (value_of (VStr nm s))) = value_of (VStr nm s))
       by (destruct (is_empty_value _); reflexivity).
     rewrite Hv. cbn. rewrite H. reflexivity. }
